@@ -179,6 +179,67 @@ theorem C06_all_reported (F : BodyFn) (P : Project) (cfg : Cfg) (w : World) (pic
   · exact (C06_select F P cfg w picks r g marks hd hb t ht hne).2.2 hp
   · exact (C06_skip F P cfg w picks r g marks hd hb a ha t hta).2.2 hp
 
+/-! ## `after` declarations: the F1 face of C06
+
+`_modify_dag` routes `after=u` through the *products* of `u`. When `u` has a product, `u` is a
+task-ancestor of the declaring task and everything above applies. When `u` has none, no edge exists
+(finding F1), so neither the skip closure nor the selection closure sees the declaration. -/
+
+/-- **C06_needs.** What a task needs directly is a task-ancestor in the build's graph: the producer
+of one of its dependencies, and every `after` target that has at least one product. -/
+theorem C06_needs (P : Project) (cfg : Cfg) (g : G) (marks : List Nat) (hd : createDag P cfg = .ok (g, marks))
+    (t u : TaskSpec) (ht : t ∈ P.tasks) (hu : u ∈ P.tasks) (hne : u.id ≠ t.id)
+    (h : (∃ p ∈ u.prods, p ∈ t.deps) ∨ (u.id ∈ t.after ∧ ∃ p, p ∈ u.prods)) : u.id ∈ taskAnc g t.id := by
+  rw [(createDag_ok hd).1]
+  rcases h with ⟨p, hp, hd'⟩ | ⟨ha, p, hp⟩
+  · exact dep_taskAnc ht hu hp hd' hne
+  · exact after_taskAnc ht hu ha hne hp
+
+/-- Full strength: a task declared `after` a user-skipped task is never executed. **False of the
+current code** when the target has no products (F1). -/
+def C06_skip_after_full : Prop :=
+  ∀ (F : BodyFn) (P : Project) (cfg : Cfg) (w : World) (picks : List Nat) (r : Result),
+    build F P cfg w picks = .ok r → ∀ t ∈ P.tasks, ∀ u ∈ P.tasks, u.id ∈ t.after → u.id ≠ t.id →
+    UserSkipped P u.id → t.id ∉ r.log
+
+/-- `up` (no products, `skip`) and `down(after=up)`. -/
+def c06F1 (skipUp : Bool) : Project := ⟨[{ id := 0, src := 90, deps := [], prods := [], after := [], skip := skipUp },
+                                          { id := 1, src := 90, deps := [], prods := [21], after := [0] }]⟩
+
+theorem C06_skip_after_full_false : ¬ C06_skip_after_full := by
+  intro h
+  have := h (fun _ _ _ _ => 1) (c06F1 true) {} ⟨[(90, 1)], []⟩ [1, 0] _ rfl
+    _ (List.Mem.tail _ (List.Mem.head _)) _ (List.Mem.head _) (by decide) (by decide) ⟨_, rfl, .inl rfl⟩
+  revert this
+  decide
+
+/-- The true weakening: targets with at least one product. -/
+theorem C06_skip_after_partial (F : BodyFn) (P : Project) (cfg : Cfg) (w : World) (picks : List Nat) (r : Result)
+    (g : G) (marks : List Nat) (hd : createDag P cfg = .ok (g, marks)) (hb : build F P cfg w picks = .ok r)
+    (t u : TaskSpec) (ht : t ∈ P.tasks) (hu : u ∈ P.tasks) (ha : u.id ∈ t.after) (hne : u.id ≠ t.id)
+    (hp : ∃ p, p ∈ u.prods) (hs : UserSkipped P u.id) : t.id ∉ r.log :=
+  (C06_skip F P cfg w picks r g marks hd hb u.id hs t.id
+    (.inr (mem_taskDesc_iff_mem_taskAnc.2 (C06_needs P cfg g marks hd t u ht hu hne (.inr ⟨ha, hp⟩))))).1
+
+/-- Full strength: the `after` target of an eligible task is eligible. **False of the current code**
+when the target has no products (F1). -/
+def C06_select_after_full : Prop :=
+  ∀ (P : Project) (cfg : Cfg) (g : G) (marks : List Nat), createDag P cfg = .ok (g, marks) →
+    ∀ t ∈ P.tasks, ∀ u ∈ P.tasks, u.id ∈ t.after → u.id ≠ t.id → Eligible g cfg t.id → Eligible g cfg u.id
+
+theorem C06_select_after_full_false : ¬ C06_select_after_full := by
+  intro h
+  have := h (c06F1 false) { selK := some [1] } _ _ rfl
+    _ (List.Mem.tail _ (List.Mem.head _)) _ (List.Mem.head _) (by decide) (by decide)
+    ⟨fun k hk => by cases hk; decide, fun m hm => by cases hm⟩
+  exact absurd (this.1 _ rfl) (by decide)
+
+theorem C06_select_after_partial (P : Project) (cfg : Cfg) (g : G) (marks : List Nat)
+    (hd : createDag P cfg = .ok (g, marks)) (t u : TaskSpec) (ht : t ∈ P.tasks) (hu : u ∈ P.tasks)
+    (ha : u.id ∈ t.after) (hne : u.id ≠ t.id) (hp : ∃ p, p ∈ u.prods) (he : Eligible g cfg t.id) :
+    Eligible g cfg u.id :=
+  he.anc (C06_needs P cfg g marks hd t u ht hu hne (.inr ⟨ha, hp⟩))
+
 /-! ## non-vacuity: the hypotheses are satisfiable on non-trivial data, and the conclusions bite -/
 
 /-- 0 (user-skipped) → 1 → (after) 2, and an independent task 3. -/
@@ -229,3 +290,4 @@ example : ∃ r, build c06F ⟨[{ id := 0, src := 90, deps := [], prods := [20],
   ⟨_, rfl, rfl, rfl⟩
 
 end Pytask
+
